@@ -67,6 +67,8 @@ type SPConfig struct {
 	// configuration and handed to every instance built from it (and from copies of it): an
 	// application that keeps one key-store object for several service providers
 	SharedKeyStores *SharedKS
+	// SignerFault: keys handed to the setters are wrapped in signers that fail while Ctl.Fail is set
+	SignerFault *FaultCtl
 
 	// Live: re-use (and re-configure in place) the process-wide long-lived SP instead of building a
 	// fresh one. Only for profiles that never sign (the signing context is lazily cached by design).
@@ -175,8 +177,8 @@ func NewSPNode(cfg *SPConfig, simNow func() time.Time) (*SPNode, error) {
 			sp.IDPCertificateStore = ms
 		}
 	}
-	sharedKS = cfg.SharedKeyStores
-	defer func() { sharedKS = nil }()
+	sharedKS, signerFault = cfg.SharedKeyStores, cfg.SignerFault
+	defer func() { sharedKS, signerFault = nil, nil }()
 	if err := applyKeyRaw(sp, cfg.EncStyle, cfg.EncKeyIdx, cfg.EncCert, false, cfg.EncCertRaw, cfg.EncKeyErr); err != nil {
 		return nil, err
 	}
@@ -208,6 +210,7 @@ func NewSPNode(cfg *SPConfig, simNow func() time.Time) (*SPNode, error) {
 
 // sharedKS is set for the duration of one NewSPNode call (single-goroutine construction).
 var sharedKS *SharedKS
+var signerFault *FaultCtl
 
 func applyKey(sp *saml2.SAMLServiceProvider, st KeyStyle, keyIdx int, cert *Cert, signing bool) error {
 	return applyKeyRaw(sp, st, keyIdx, cert, signing, nil, nil)
@@ -244,6 +247,9 @@ func applyKeyRaw(sp *saml2.SAMLServiceProvider, st KeyStyle, keyIdx int, cert *C
 	}
 	setter := func() error {
 		ks := &saml2.KeyStore{Signer: k.Signer, Cert: der}
+		if signerFault != nil {
+			ks.Signer = &FaultySigner{Signer: k.Signer, Ctl: signerFault}
+		}
 		if sh := sharedKS; sh != nil {
 			slot := &sh.Enc
 			if signing {
